@@ -53,6 +53,8 @@ def main():
             results.append((sid, meta, rows))
             verdict = "VIOLATION" if any(rc == 1 for _, _, rc in rows) else ("undecided" if any(rc == 2 for _, _, rc in rows) else "MISSED")
             print(f"{sid}: {verdict}  " + "; ".join(f"{p} rc={rc}" for p, _, rc in rows), flush=True)
+    if args:
+        return      # a partial run does not rewrite the table
     out = ["# Seeded changes run against the current checks", "",
            "Produced by `tools/seed_matrix.py` (each change applied to a scratch copy of /repo; quick checks of the properties it breaks).",
            "rc 1 = VIOLATION reported, rc 2 = undecided (tool limit, never counted as \"held\"), rc 0 = missed.", "",
